@@ -170,6 +170,10 @@ def main(argv=None):
                 known_lines.append('KNOWN-FINDING: property=%s %s [%s]' % (pid, k.get('what', cls), r['name']))
                 continue
             in_base = cls in set(baseline.get(r['family'], []))
+            if '/frame(' in r['name']:
+                # a parameter outside `modifies` is mutated on a feasible path: such an obligation does not exist on the unchanged
+                # tree (nothing to put in the baseline); the contract's frame, which every caller relies on, is broken
+                in_base = True
             if confirmed and confirmed.get('confirmed'):
                 rp = write_replay(pid, r['name'], payload)
                 violations.append((r['name'], rp, ''))
